@@ -59,6 +59,11 @@ def finish(prop, tier, seed, run, wall, rule, explore=False, extra_cov=None, wri
         for skey, e in sorted(run.findings.items(), key=lambda kv: -kv[1]["count"]):
             c = e["case"]
             print("%5d  %s\n         e.g. %s p=%s %s n=%d: %s" % (e["count"], skey, c.kind, c.p, c.iname, len(c.S), e["detail"][:200]))
+            xd = os.environ.get("VERIF_EXPLORE_DIR")
+            if xd:
+                os.makedirs(xd, exist_ok=True)
+                obj = {"property": prop, "signature": e["sig"], "detail": e["detail"], "case": c.to_json(), "sanitizer_report": e.get("stderr", "")[:5000]}
+                write_json_atomic(os.path.join(xd, re.sub(r"[^A-Za-z0-9_.-]+", "_", skey)[:120] + ".json"), obj)
         for k, v in run.known_seen.items():
             print("known %s x%d" % (k, v))
         print("stat", dict(run.stat))
@@ -156,3 +161,89 @@ def c01(prop, tier, seed, wd, explore, limit, kinds, we):
     rule = ("corner corpus + seeded random input sets x 13 kinds x seeded parameter vector x 2 of {fresh, own loader, generic loader}; a case is (kind, params, input set, state); "
             "non-trivial = completed case with >=2 strings and, for front-coding kinds, >=2 buckets or a partially filled last bucket; distinct by hash of (kind, params, input, state)")
     return dict_check(prop, tier, seed, wd, explore, limit, kinds, we, cases, rule)
+
+RULE_BASE = ("corner corpus (%d fixed sets) + seeded random input sets from 22 families x kinds x seeded parameter vectors x object states; a case is (kind, params, input set, state, ops); "
+             "distinct by hash of that tuple; non-trivial = completed case with >=2 strings and, for front-coding kinds, >=2 buckets or a partially filled last bucket") % len(gen.corner_corpus())
+
+@register("C02")
+def c02(prop, tier, seed, wd, explore, limit, kinds, we):
+    cases = P.basic_cases(prop, seed, tier, ops=("locate_absent", "extract_badid"))
+    def nt(case, cnt):
+        return P.nt_fc_or_any(case, cnt) and cnt.get("absent_classes_hit", 0) >= 6
+    return dict_check(prop, tier, seed, wd, explore, limit, kinds, we, cases, RULE_BASE + "; additionally >=6 distinct absent-string classes were queried in the case",
+                      nontrivial=nt, required=("absent_before_first", "absent_after_last", "absent_proper_prefix", "absent_extension", "absent_between_buckets", "id_0", "id_uint_wrap", "id_size_max"))
+
+@register("C03")
+def c03(prop, tier, seed, wd, explore, limit, kinds, we):
+    cases = P.basic_cases(prop, seed, tier, ops=("locate", "extract", "rank"))
+    return dict_check(prop, tier, seed, wd, explore, limit, kinds, we, cases, RULE_BASE + "; order oracle on the 7 order-preserving kinds, rank oracle on every kind that answers extractRank")
+
+@register("C04")
+def c04(prop, tier, seed, wd, explore, limit, kinds, we):
+    def kp(kind, r, S):
+        if kind in FC:   # small buckets so that ranges start/end at every in-bucket offset
+            return [(r.choice([2, 3, 4, 5, 8]),), (r.choice([2, 3, 4, 7, 16, 64, len(S) + 1]),)]
+        return P.param_vectors(kind, r, S, 1)
+    cases = P.basic_cases(prop, seed, tier, ops=("locatePrefix", "extractPrefix", "extract"), kinds=PREFIXK, kind_params=kp, per_input_states=1)
+    def nt(case, cnt):
+        return P.nt_fc_or_any(case, cnt) and cnt.get("eval.locatePrefix", 0) >= 5
+    return dict_check(prop, tier, seed, wd, explore, limit, kinds, we, cases, RULE_BASE + "; prefix-capable kinds only; >=5 prefix patterns answered",
+                      nontrivial=nt, required=("pfx_span1", "pfx_span2", "pfx_span_many", "pfx_ends_at_bucket_end", "pfx_none_before", "pfx_none_inside", "pfx_none_after"))
+
+@register("C05")
+def c05(prop, tier, seed, wd, explore, limit, kinds, we):
+    def kp(kind, r, S):
+        if kind == "FMINDEX":
+            textlen = sum(len(s) + 1 for s in S)
+            out = []
+            for _ in range(2):
+                sparse = r.choice([0, 1])
+                bp = r.choice([1, 2, 4, 20, 40]) if not sparse else r.choice([1, 8, 16, 32, 128])
+                out.append((sparse, bp, r.choice([1, 2, 3, 4, 8, 16, 64, textlen + 5])))
+            return out
+        return [()]
+    cases = P.basic_cases(prop, seed, tier, ops=("locateSubstr", "extractSubstr", "extract"), kinds=["FMINDEX", "XBW"], kind_params=kp, per_input_states=2, max_n=3000)
+    def nt(case, cnt):
+        return len(case.S) >= 2 and cnt.get("eval.locateSubstr", 0) >= 5
+    return dict_check(prop, tier, seed, wd, explore, limit, kinds, we, cases, RULE_BASE + "; FMINDEX (BWT sampling >= 1) and XBW; >=5 substring patterns answered",
+                      nontrivial=nt, required=("sub_multi_occ_hit", "sub_cross_boundary", "sub_single_byte", "sub_none"))
+
+@register("C13")
+def c13(prop, tier, seed, wd, explore, limit, kinds, we):
+    def kp(kind, r, S):
+        if kind in FC:
+            return [(r.choice([2, 3, 4, 5, 6, 7, 8]),)]
+        return P.param_vectors(kind, r, S, 1)
+    cases = P.basic_cases(prop, seed, tier, ops=("extractTable", "extract", "locatePrefix", "extractPrefix", "locateSubstr", "extractSubstr"), kind_params=kp, per_input_states=2)
+    return dict_check(prop, tier, seed, wd, explore, limit, kinds, we, cases, RULE_BASE + "; table scan on every kind that implements it, every ID/string iterator drained with a cap of n+2")
+
+@register("C15")
+def c15(prop, tier, seed, wd, explore, limit, kinds, we):
+    cases = P.basic_cases(prop, seed, tier, ops=("meta",), states=("fresh", "own", "gen", "resaved"), per_input_states=3)
+    return dict_check(prop, tier, seed, wd, explore, limit, kinds, we, cases, RULE_BASE + "; states fresh, own loader, generic loader, re-saved")
+
+@register("C14")
+def c14(prop, tier, seed, wd, explore, limit, kinds, we):
+    cases = P.basic_cases(prop, seed, tier, ops=("history", "meta"), per_input_states=1, max_n=2000, n_random=30 if tier == "quick" else 300)
+    def nt(case, cnt):
+        return len(case.S) >= 2 and cnt.get("eval.history_call", 0) >= 50
+    return dict_check(prop, tier, seed, wd, explore, limit, kinds, we, cases, RULE_BASE + "; a seeded history of >=50 calls ran with repeats, failed lookups and interleaved iterators", nontrivial=nt,
+                      required=("op_repeated", "iter_interleaved", "failed_lookup"))
+
+@register("C16")
+def c16(prop, tier, seed, wd, explore, limit, kinds, we):
+    def kp(kind, r, S):
+        if kind == "FMINDEX":
+            return [(r.choice([0, 1]), r.choice([4, 16, 20]), 0)]
+        return P.param_vectors(kind, r, S, 1)
+    cases = P.basic_cases(prop, seed, tier, ops=("unsupported",), kind_params=kp, per_input_states=2, n_random=30 if tier == "quick" else 200)
+    def nt(case, cnt):
+        return cnt.get("eval.unsupported", 0) >= 1
+    return dict_check(prop, tier, seed, wd, explore, limit, kinds, we, cases, RULE_BASE + "; at least one unsupported operation was called and the dictionary probed afterwards", nontrivial=nt)
+
+@register("C08")
+def c08(prop, tier, seed, wd, explore, limit, kinds, we):
+    cases = P.basic_cases(prop, seed, tier, ops=("save", "meta"), states=("fresh", "own", "gen", "resaved"), per_input_states=3, n_random=36 if tier == "quick" else 300, max_n=2000)
+    def nt(case, cnt):
+        return len(case.S) >= 2 and cnt.get("eval.save", 0) >= 3
+    return dict_check(prop, tier, seed, wd, explore, limit, kinds, we, cases, RULE_BASE + "; three saves with queries and an open iterator in between", nontrivial=nt)
